@@ -290,7 +290,7 @@ func edgeDominates(ifb *ssa.BasicBlock, succ int, target *ssa.BasicBlock) bool {
 		return true
 	}
 	f := ifb.Parent()
-	if !funcHasThreads(f) {
+	if plainGuards || !funcHasThreads(f) {
 		return false
 	}
 	// feasible-path version: target is reachable, but not without taking this edge
@@ -607,10 +607,11 @@ func nilnessAt(e ssa.Value, blk, to *ssa.BasicBlock) (isNil, known bool) {
 		}
 		break
 	}
+	facts := edgeFacts
 	if noFactsMode {
-		return false, false
+		facts = edgeFactsPlain // dominator-tree guards only: the threaded dominance is being computed right now
 	}
-	for _, f := range edgeFacts(blk, to) {
+	for _, f := range facts(blk, to) {
 		if f.X == e {
 			if c, ok := f.Y.(*ssa.Const); ok && c.IsNil() {
 				if f.Op == token.NEQ {
@@ -819,6 +820,16 @@ func bothOrientations(fs []relFact) []relFact {
 	}
 	return out
 }
+
+// edgeFactsPlain: edgeFacts from the dominator tree alone (no feasible-path reasoning).
+func edgeFactsPlain(pred, succ *ssa.BasicBlock) []relFact {
+	old := plainGuards
+	plainGuards = true
+	defer func() { plainGuards = old }()
+	return bothOrientations(edgeFacts1(pred, succ))
+}
+
+var plainGuards = false
 
 func edgeFacts1(pred, succ *ssa.BasicBlock) []relFact {
 	var out []relFact
@@ -1443,5 +1454,34 @@ func valueLeaves(v ssa.Value, at *ssa.BasicBlock, depth int) []valueLeaf {
 		out = append(out, valueLeaf{x, facts})
 	}
 	walk(v, blockFacts(at), depth)
+	return out
+}
+
+// guardsOfInter: guardsOf(b), plus - when b's function is a literal applied in place (the form a helper with deferred
+// calls has after it was spliced back) - the guards of its call site in the enclosing function, and so on outwards.
+func guardsOfInter(b *ssa.BasicBlock) []guard {
+	out := guardsOf(b)
+	fn := b.Parent()
+	for d := 0; d < 4 && fn != nil && fn.Parent() != nil && appliedInPlace(fn); d++ {
+		par := fn.Parent()
+		var site *ssa.BasicBlock
+		eachInstr(par, func(in ssa.Instruction) {
+			c, ok := in.(*ssa.Call)
+			if !ok {
+				return
+			}
+			if c.Call.Value == ssa.Value(fn) {
+				site = in.Block()
+			}
+			if mc, ok := c.Call.Value.(*ssa.MakeClosure); ok && mc.Fn == ssa.Value(fn) {
+				site = in.Block()
+			}
+		})
+		if site == nil {
+			break
+		}
+		out = append(out, guardsOf(site)...)
+		fn = par
+	}
 	return out
 }
